@@ -158,14 +158,9 @@ func (ex *Exec) callFunction(fr *frame, fn *ssa.Function, args []Val, bind []Val
 		// key builders and address builders are abstracted as injective constructors
 		if sig.Results().Len() == 1 && sig.Recv() == nil && allScalarParams(sig) {
 			rt := sig.Results().At(0).Type()
-			if isByteSlice(rt) && !isAccAddr(rt) && strings.HasSuffix(tpkg.Path(), "/types") {
+			if isByteSlice(rt) && !isAccAddr(rt) {
 				if ka, ok := ex.keyArgs(args); ok {
 					return &BytesV{Tag: tpkg.Name() + "." + fn.Name(), Args: ka}
-				}
-			}
-			if isAccAddr(rt) && sig.Params().Len() > 0 {
-				if ka, ok := ex.keyArgs(args); ok {
-					return smt.App("addrfn!"+tpkg.Name()+"."+fn.Name(), smt.Addr, ka...)
 				}
 			}
 		}
